@@ -184,7 +184,12 @@ def write_order(ctx, f, cfg):
         if w:
             ctx.violation("C19.write-order", "C19.write-order|lines-not-flushed", "lines can be reported written (Ok) without being flushed", wf.loc(), config=cfg)
         # lines end with LF
-        lf = any(op.get("text", "").strip('"') in ("\\n", "\n") for blk in wf.blocks for s in blk["stmts"] if s["k"] == "assign" and s["rv"]["k"] == "use" for op in [s["rv"]["op"]] if op.get("k") == "const")
+        def _is_lf(op):
+            if not isinstance(op, dict) or op.get("k") != "const":
+                return False
+            return op.get("text", "").strip('"') in ("\\n", "\n") or (op.get("ty") == "char" and op.get("val") == 10) or op.get("text", "") in ("'\\n'", "'\n'")
+        lf = any(_is_lf(s["rv"]["op"]) for blk in wf.blocks for s in blk["stmts"] if s["k"] == "assign" and s["rv"]["k"] == "use") or \
+            any(_is_lf(a) for _, t in wf.calls() for a in t["args"])      # "\n" appended as a str constant, or '\n' pushed as a char
         ctx.instance("C19.write-order/lf", wf.path, "each item is written as item.to_string() + LF: %s" % lf, "true", lf, cfg)
         if not lf:
             ctx.violation("C19.write-order", "C19.write-order|no-lf", "lines are not LF-terminated (the reader splits on LF)", wf.loc(), config=cfg)
